@@ -3,10 +3,13 @@
 //     slice offset of the callback, and the five flags handed to replaceSequence;
 //   - quote(): the character set it reacts to and the wrappers it adds;
 //   - the guards of checkAndReplaceSequence as sorted conjunctions of role-named atoms.
+//
 // Shapes the extractor does not recognise make it exit 3 (facts unreadable), never guess.
 package main
 
 import (
+	"crypto/sha256"
+	"encoding/hex"
 	"go/ast"
 	"go/token"
 	"regexp"
@@ -91,6 +94,8 @@ func main() {
 	testParam := ps[3]
 	var rows []string
 	npass := 0
+	chained := true
+	prevVar := ps[2] // the first pass reads the command parameter
 	for _, st := range fn.Body.List {
 		as, ok := st.(*ast.AssignStmt)
 		if !ok || len(as.Rhs) != 1 {
@@ -109,6 +114,16 @@ func main() {
 			xlib.Unreadable("ReplaceAllStringFunc on a non-identifier: %s", f.Src(sel.X))
 		}
 		npass++
+		if len(call.Args) == 2 {
+			if id, ok := call.Args[0].(*ast.Ident); !ok || id.Name != prevVar {
+				chained = false // a pass that does not read the previous pass's result drops that pass
+			}
+		}
+		if len(as.Lhs) == 1 {
+			if id, ok := as.Lhs[0].(*ast.Ident); ok {
+				prevVar = id.Name
+			}
+		}
 		kw, ok := kwOf[rv.Name]
 		if !ok {
 			xlib.Unreadable("pass %d uses regex variable %s whose pattern is not \\$\\(kw ([^\\)]+)\\)", npass, rv.Name)
@@ -300,5 +315,71 @@ func main() {
 		}
 	}
 	out.Def("guards", "List String", xlib.LeanStrList(guards))
+	out.Def("passesChained", "Bool", xlib.LeanBool(chained))
+
+	// skeletons: the remaining code the model transcribes, with parameters named by position, locals by order
+	// of declaration and message texts blanked — insensitive to renaming, sensitive to any change of structure,
+	// operator, constant, call or order.
+	for _, sk := range []struct {
+		name string
+		text string
+	}{
+		{"skelCheckTail", skeleton(f, cr, 1)},
+		{"skelFileDestination", skeleton(f, f.Func("fileDestination"), 0)},
+		{"skelHandleDir", skeleton(f, f.Func("handleDir"), 0)},
+		{"skelReplaceSequenceLabel", skeleton(f, f.Func("replaceSequenceLabel"), 0)},
+		{"skelReplaceSequence", skeleton(f, f.Func("replaceSequence"), 0)},
+		{"skelSplitEntryPoint", skeleton(f, f.Func("splitEntryPoint"), 0)},
+		{"skelSourcesOrTools", skeleton(f, f.Func("sourcesOrTools"), 0)},
+	} {
+		// the kernel compares short strings quickly, long ones not: the fact is the digest, the text is kept for the reader
+		sum := sha256.Sum256([]byte(sk.text))
+		out.Raw("-- " + sk.name + ": " + sk.text)
+		out.Def(sk.name, "String", xlib.LeanStr(hex.EncodeToString(sum[:12])))
+	}
 	out.Write()
+}
+
+// skeleton renders the statements of fn's body from index `from` on, canonically.
+func skeleton(f *xlib.File, fn *ast.FuncDecl, from int) string {
+	names := map[*ast.Object]string{}
+	np := 0
+	for _, fl := range fn.Type.Params.List {
+		for _, n := range fl.Names {
+			if n.Obj != nil {
+				names[n.Obj] = "p" + strconv.Itoa(np)
+			}
+			np++
+		}
+	}
+	nv := 0
+	ast.Inspect(fn.Body, func(n ast.Node) bool {
+		if id, ok := n.(*ast.Ident); ok && id.Obj != nil && id.Obj.Kind == ast.Var {
+			if _, seen := names[id.Obj]; !seen {
+				if d, ok := id.Obj.Decl.(ast.Node); ok && d.Pos() >= fn.Body.Pos() && d.End() <= fn.Body.End() {
+					names[id.Obj] = "v" + strconv.Itoa(nv)
+					nv++
+				}
+			}
+		}
+		return true
+	})
+	ast.Inspect(fn.Body, func(n ast.Node) bool {
+		switch x := n.(type) {
+		case *ast.Ident:
+			if nm, ok := names[x.Obj]; ok && x.Obj != nil {
+				x.Name = nm
+			}
+		case *ast.BasicLit:
+			if x.Kind == token.STRING && len(x.Value) > 6 && strings.Contains(x.Value, " ") {
+				x.Value = `"…"`
+			}
+		}
+		return true
+	})
+	var parts []string
+	for _, st := range fn.Body.List[from:] {
+		parts = append(parts, f.Src(st))
+	}
+	return strings.Join(parts, " ; ")
 }
